@@ -24,12 +24,52 @@ def faulty_case(draw):
     kinds.append("init_elsewhere")
   if anc:
     kinds.append("none_exit_walk")
+  if descendants(spec["parent"], f) and [j for j in others if j not in anc]:
+    kinds.append("none_exit_climb")
   if descendants(spec["parent"], f):
     kinds.append("none_search_init_target")
     kinds.append("none_search_target_parent")
+  kinds.append("none_else")
   kind = draw(st.sampled_from(kinds))
   # on the queued processor the event may also travel through the queue
   via = draw(st.sampled_from(["dispatch", "next_rtc", "complete_circuit"]))
+  if kind == "none_exit_climb":
+    # f returns no status for EXIT; the chart rests strictly below f and the resting state itself
+    # takes a transition to a state outside f: f is exited by the climb towards the common ancestor
+    outside = [j for j in others if j not in anc]
+    opts = []
+    for x in descendants(spec["parent"], f):
+      m = Model(spec)
+      m.start(x)
+      if m.cur != f and f in m.path(m.cur):
+        opts.append(x)
+    if not opts:
+      kind = "init_self"
+    else:
+      return {"spec": spec, "fault_state": f, "fault": kind, "bad_target": draw(st.sampled_from(outside)),
+              "reach": "dispatch", "start": draw(st.sampled_from(opts)),
+              "host": draw(st.sampled_from(["plain", "instr", "queued"])), "via": via}
+  if kind == "none_else":
+    # f has no 'else' clause: it names no parent and returns no status for anything it has no
+    # clause for.  Either the chart is started through it, or a later transition leads into its
+    # region: f lies on the path of the target, at any level, and was not consulted before
+    tgts = [f] + descendants(spec["parent"], f)
+    opts = []
+    for x in range(n):
+      m = Model(spec)
+      seq = m.start(x)
+      if f in m.path(x) or any(q[1] == f for q in seq):
+        continue
+      for t in tgts:
+        opts.append((x, t))
+    if opts and draw(st.integers(0, 3)) > 0:
+      x, t = draw(st.sampled_from(opts))
+      return {"spec": spec, "fault_state": f, "fault": kind, "bad_target": t, "reach": "dispatch",
+              "start": x, "host": draw(st.sampled_from(["plain", "instr", "queued"])), "via": via}
+    through = [x for x in range(n) if f in Model(spec).path(x) or any(q[1] == f for q in Model(spec).start(x))]
+    return {"spec": spec, "fault_state": f, "fault": kind, "bad_target": None, "reach": "start_at",
+            "start": draw(st.sampled_from(through)), "host": draw(st.sampled_from(["plain", "instr", "queued"])),
+            "via": via}
   if kind == "none_search_target_parent":
     # f answers the super-state probe with no status; one of its children is the target of a
     # transition that has to climb from the target towards the source (not a local topology)
@@ -106,15 +146,18 @@ def via_of(case):
 
 class C24(Prop):
   id = "C24"
-  quick_examples = 700
+  quick_examples = 2000
   thorough_examples = 8000
   rule = ("Hypothesis-generated well-formed chart with ONE injected fault: a state's initial "
           "transition targets itself, one of its ancestors, or a state elsewhere in the forest "
           "(not nested inside it); or a state returns no status (None) when a user event is "
-          "offered to it, for its exit event while an ancestor's transition walks out through it, or "
+          "offered to it, for its exit event while an ancestor's transition walks out through it or while a "
+          "transition of the resting state below it climbs out of its branch, or "
           "for the super-state probe while it is the target of an initial transition, or for the super-state "
           "probe while it is the PARENT of the target of a transition that climbs from the target towards the "
-          "source (Samek topologies e, f, g). The fault is reached by start_at (the faulty state is the start state) or "
+          "source (Samek topologies e, f, g); or a state has no 'else' clause at all - it names no parent and "
+          "returns no status for anything it has no clause for - and lies on the path of a transition's target "
+          "at ANY level above it (or is the target), or on the path start_at has to climb. The fault is reached by start_at (the faulty state is the start state) or "
           "by dispatch (the chart is started where the fault is not touched, then an event whose "
           "transition targets the faulty state - or, for the status fault, the offered event - is "
           "dispatched), on the plain, instrumented and queued processors; on the queued processor the event is "
@@ -148,6 +191,21 @@ class C24(Prop):
       spec["react"][a] = dict(spec["react"][a])
       spec["react"][a][ZS] = ["trans", case["target"]]
       must_raise = True
+    elif kind == "none_exit_climb":
+      spec["faults"] = {str(f): "none_exit"}
+      model.start(case["start"])
+      rest = model.cur
+      spec["react"][rest] = dict(spec["react"][rest])
+      spec["react"][rest][ZS] = ["trans", case["bad_target"]]
+      must_raise = True
+    elif kind == "none_else":
+      spec["faults"] = {str(f): "none_else"}
+      must_raise = True
+      if case["reach"] == "dispatch":
+        model.start(case["start"])
+        rest = model.cur
+        spec["react"][rest] = dict(spec["react"][rest])
+        spec["react"][rest][ZS] = ["trans", case["bad_target"]]
     elif kind == "none_search_target_parent":
       spec["faults"] = {str(f): case["variant"]}
       model.start(case["start"])
@@ -166,11 +224,24 @@ class C24(Prop):
       must_raise = False
     rt = chartgen.build(spec, decorate=spec["spy"])
     chart = hsmcheck.make_host(case["host"])
-    stats.case(case, True, ["fault_" + kind, "reach_dispatch", "host_" + case["host"], "via_" + via_of(case)])
+    if kind == "none_else" and case["reach"] == "dispatch":
+      m_ = Model(case["spec"])
+      m_.start(case["start"])
+      topo = m_.topology({"S": m_.cur, "T": case["bad_target"]})
+      lvl = m_.path(case["bad_target"]).index(f)
+      extra_classes = ["none_else_topology_" + topo, "none_else_levels_above_target_%d" % min(lvl, 3)]
+    else:
+      extra_classes = []
+    stats.case(case, case["reach"] == "dispatch", ["fault_" + kind, "reach_" + case["reach"], "host_" + case["host"],
+                                                   "via_" + via_of(case)] + extra_classes)
     what = "%s (faulty state %s) on %s via %s" % (
       kind, name_of(case["bad_target"] if kind == "none_search_init_target" else f), case["host"], via_of(case))
     try:
       chart.start_at(rt.fns[case["start"]])
+      if case["reach"] == "start_at":
+        raise PropertyViolation("%s: start_at(%s) passed through a state that returns no status and "
+                                "returned normally (resting in %s)" % (what, name_of(case["start"]),
+                                                                      chart.state_name), "C24:silent")
     except HsmTopologyException:
       return            # the probe fault may already surface while starting
     except HarnessBound as e:
@@ -190,13 +261,16 @@ class C24(Prop):
       raise PropertyViolation("%s: a state that returned no status was consulted (%s) and the call returned "
                               "normally (resting in %s)" % (
                                 what, "for its exit event, by the exit walk" if kind == "none_exit_walk" else
+                                "for its exit event, by the climb out of the source's branch" if kind == "none_exit_climb" else
+                                "on the way to the transition target" if kind == "none_else" else
                                 "as the parent of the transition target, for the super-state probe",
                                 chart.state_name), "C24:silent")
 
   def check(self, case, stats):
     from miros.event import Event, signals
     from miros.hsm import HsmTopologyException
-    if case["fault"] in ("none_exit_walk", "none_search_init_target", "none_search_target_parent"):
+    if case["fault"] in ("none_exit_walk", "none_exit_climb", "none_search_init_target",
+                         "none_search_target_parent", "none_else"):
       return self.check_status_fault(case, stats)
     spec = copy.deepcopy(case["spec"])
     f, kind = case["fault_state"], case["fault"]
